@@ -349,9 +349,20 @@ def replay_shape(case):
         dsx = {"spectral_axis_scale": D.fr(case["scale"])}
     dm, mc, _, _ = D.build({"type": "spectral", "shape": {"s1": "sh1"}}, None, pars, {"shape": {"sh1": shape}}, dsx)
     xs = [D.fr(p["x"]) for p in case["points"]]
-    labels, mat = mc.calculate_matrix(dm, np.asarray([0.0]), np.asarray(xs))
+    axis_arg = np.asarray(xs, dtype=float)
+    axis_keep = axis_arg.copy()
+    labels, mat = mc.calculate_matrix(dm, np.asarray([0.0]), axis_arg)
     col = np.asarray(mat)[:, list(labels).index("s1")]
     aabs = abs(amp)
+    # the axis belongs to the caller (the optimiser passes the same array at every evaluation): it is left as it is and a second
+    # evaluation on it gives the same column
+    if not np.array_equal(axis_arg, axis_keep):
+        _first(res, f"SpectralShape[{typ}].axis untouched: {case['mode']} spectral axis", f"calculate_matrix changed the model axis it was given: {axis_keep.tolist()} -> {axis_arg.tolist()}")
+    else:
+        labels2, mat2 = mc.calculate_matrix(dm, np.asarray([0.0]), axis_arg)
+        col2 = np.asarray(mat2)[:, list(labels2).index("s1")]
+        if not np.array_equal(col, col2, equal_nan=True):
+            _first(res, f"SpectralShape[{typ}].repeatable: {case['mode']} spectral axis", "a second evaluation on the same axis gives another column")
 
     def key(clause):
         return f"SpectralShape[{typ}].{clause}: {case['mode']} spectral axis"
